@@ -28,6 +28,7 @@ and `Circuit.Compute`) is C02/C13's.
 -/
 import MpcVerif.Proofs.GmwRun
 import MpcVerif.Proofs.GmwHist
+import MpcVerif.Proofs.LevelsMod
 import MpcVerif.Model.Iknp
 
 namespace Mpc
@@ -255,6 +256,115 @@ theorem C10_concrete :
     runOuts (run exGmw [1, 1, 1] exX exRnd exPools) = some [[true, true], [true, true], [true, true]] ∧
     exGmw.compute (inputBits [1, 1, 1] exX) = [true, true] := by
   decide +kernel
+
+/-! ### The boundary of "every circuit": the width of the level counter
+
+`C10_level_schedule` and everything built on it count levels in `Nat`.
+`Circuit.AssignLevels` counts them in `Level = uint32` (gate field, scratch
+table `levels []Level`, `level++`), and Go arithmetic wraps silently: the
+theorems describe the code for circuits whose AND depth fits the counter.
+`Model/LevelsMod.lean` has the loop with a `k`-bit counter
+(`assignLevelsMod k`), the predicate "the level table is a topological
+schedule of `Network.run`" (`TopoLevels`, decided in linear time by
+`topoCheck`, which the harness evaluates on the REAL levels of generated and
+extreme circuits: AND depth 255 … 65537 and beyond) and the chain family. -/
+
+/-- The `Nat` levels of `AssignLevels(TargetGMW)` are a topological schedule:
+a gate's level is at least the level of the producer of each input, and
+strictly larger when that producer is an AND gate; the linear check
+`topoCheck` (the harness's level oracle) accepts them – for every circuit. -/
+theorem C10_levels_topological (c : Circuit) (hssa : SSA c.numWires c.gates c.inputDefined) :
+    TopoLevels (glv c) ∧ topoCheck c.numWires (glv c) = true :=
+  ⟨levels_topological c hssa, topoCheck_assignLevels c⟩
+
+example : SSA exGmw.numWires exGmw.gates exGmw.inputDefined := ⟨by decide, by decide, by decide⟩
+example : glv exGmw = [(⟨.and, 0, 1, 3⟩, 0), (⟨.xnor, 3, 2, 4⟩, 1), (⟨.inv, 4, 0, 5⟩, 1), (⟨.and, 5, 0, 6⟩, 1)] := by
+  decide +kernel
+
+/-- What the level oracle decides: a level table (ANY table – the one read
+back from the real gates) that `topoCheck` accepts is a topological schedule,
+for single-assignment gate lists. -/
+theorem C10_topo_check_sound (n : Nat) (gl : List (Gate × Nat)) (hnd : (gl.map (·.1.out)).Nodup)
+    (hsz : ∀ a ∈ gl, a.1.out < n) (h : topoCheck n gl = true) : TopoLevels gl :=
+  topoCheck_sound n gl hnd hsz h
+
+example : topoCheck 7 (glv exGmw) = true ∧ topoCheck 7 (exGmw.gates.zip [0, 1, 1, 0]) = false := by decide +kernel
+example : TopoLevels (glv exGmw) :=
+  C10_topo_check_sound 7 (glv exGmw) (by decide +kernel) (by decide +kernel) (by decide +kernel)
+
+/-- **No-overflow side condition, explicit.**  With the levels held in a
+`k`-bit counter the loop computes exactly the `Nat` levels as long as the AND
+depth (`Stats[NumLevels]`, the largest wire level) is below `2^k`. -/
+theorem C10_levels_counter_exact (c : Circuit) (k : Nat) (h : (c.assignLevels true).2 < 2 ^ k) :
+    c.assignLevelsMod k = c.assignLevels true :=
+  assignLevelsMod_eq c k h
+
+example : (exGmw.assignLevels true).2 < 2 ^ 2 ∧ exGmw.assignLevelsMod 2 = ([0, 1, 1, 1], 2) := by decide +kernel
+
+/-- **Where the model meets the code** (`type Level uint32`): for AND depth
+below `2^32` the 32-bit computation of `AssignLevels` IS `assignLevels true`,
+its level table is a topological schedule and the evaluation order of
+`Network.run` built from it is `Gmw.schedule` – so `C10_level_schedule`,
+`C10_outputs`, `C10_history` speak about the code.  Beyond that depth they do
+not (`C10_levels_mod_not_topological`). -/
+theorem C10_levels_u32 (c : Circuit) (hssa : SSA c.numWires c.gates c.inputDefined)
+    (hdepth : (c.assignLevels true).2 < 2 ^ 32) :
+    c.assignLevelsMod 32 = c.assignLevels true ∧
+    TopoLevels (c.gates.zip (c.assignLevelsMod 32).1) ∧
+    scheduleWith c (c.assignLevelsMod 32) = schedule c := by
+  have e := assignLevelsMod_eq c 32 hdepth
+  refine ⟨e, ?_, ?_⟩
+  · rw [e]; exact levels_topological c hssa
+  · rw [e, schedule_eq_scheduleWith]
+
+example : (exGmw.assignLevels true).2 < 2 ^ 32 := by decide +kernel
+
+/-- No level table whose entries all fit `k` bits is a topological schedule of
+the dependent AND chain of depth `2^k + 1` (levels must grow by one per AND). -/
+theorem C10_bounded_levels_not_topological (k : Nat) (lv : List Nat) (hl : lv.length = 2 ^ k + 1)
+    (hb : ∀ l ∈ lv, l < 2 ^ k) : ¬ TopoLevels ((chain (2 ^ k + 1)).gates.zip lv) :=
+  chain_bounded_not_topo k lv hl hb
+
+example : ([0, 1, 0] : List Nat).length = 2 ^ 1 + 1 ∧ ∀ l ∈ ([0, 1, 0] : List Nat), l < 2 ^ 1 := by decide
+
+/-- **Negation witness, as a family.**  For EVERY counter width `k` the
+schedule computed modulo `2^k` is NOT topological once the AND depth reaches
+`2^k`: on the chain of depth `2^k + 1` the last gate gets level `0` and is
+evaluated in the first round, before the gate feeding it; the level oracle
+rejects that table.  (`k = 32`: the code, at a depth no run reaches; `k = 16`,
+`k = 8`: depths 65537 and 257, which the harness runs.) -/
+theorem C10_levels_mod_not_topological (k : Nat) :
+    ¬ TopoLevels ((chain (2 ^ k + 1)).gates.zip ((chain (2 ^ k + 1)).assignLevelsMod k).1) ∧
+    topoCheck (chain (2 ^ k + 1)).numWires
+      ((chain (2 ^ k + 1)).gates.zip ((chain (2 ^ k + 1)).assignLevelsMod k).1) = false :=
+  ⟨chain_mod_not_topo k, chain_mod_check_false k⟩
+
+example : (chain 3).assignLevelsMod 1 = ([0, 1, 0], 1) ∧ (chain 3).assignLevels true = ([0, 1, 2], 3) := by
+  decide +kernel
+
+/-- … and the outputs are wrong: evaluating the chain in the order
+`Network.run` derives from the wrapped levels gives `0` where `compute` gives
+`1` on the all-ones input (`k = 1, 2, 3`: depths 3, 5, 9), while the order of
+the exact levels gives `compute`. -/
+theorem C10_levels_mod_wrong_output :
+    ∀ k ∈ [1, 2, 3],
+      let c := chain (2 ^ k + 1)
+      let st := initStore c.numWires false [true, true]
+      c.outputs (evalPlainGates (scheduleWith c (c.assignLevelsMod k)) st) = [false] ∧
+      c.outputs (evalPlainGates (scheduleWith c (c.assignLevels true)) st) = [true] ∧
+      c.compute [true, true] = [true] := by
+  decide +kernel
+
+example : scheduleWith (chain 3) ((chain 3).assignLevelsMod 1) =
+    [chainGate 0, chainGate 2, chainGate 1] := by decide +kernel
+
+/-- The `lvl` op of the driver evaluates `Circuit.compute` through
+`computeFast` (initial store built without the per-wire list walk, needed for
+inputs of 2^16 and more bits): the same function. -/
+theorem C10_driver_compute (c : Circuit) (x : List Bool) : c.computeFast x = c.compute x :=
+  computeFast_eq c x
+
+example : exGmw.computeFast [true, true, false] = [true, true] := by decide +kernel
 
 /-! ### Histories: consecutive `Run` calls on one connected Network
 
